@@ -284,8 +284,10 @@ class Check:
               "coverage": cov, "assumptions": self.assumptions,
               "wall_s": round(time.time() - self.t0, 1), "violations": len(self.violations),
               "known_findings_seen": sorted(self.known_seen.keys())}
-        os.makedirs(EVID, exist_ok=True)
-        with open(os.path.join(EVID, self.pid + ".json"), "w") as f:
+        # checks beyond the listed properties (ids not of the form Cnn) keep their evidence apart
+        evdir = EVID if re.fullmatch(r"C\d\d", self.pid) else os.path.join(EVID, "extra")
+        os.makedirs(evdir, exist_ok=True)
+        with open(os.path.join(evdir, self.pid + ".json"), "w") as f:
             json.dump(ev, f, indent=1)
         if self.violations:
             return 1
